@@ -1784,6 +1784,78 @@ def vc_every_hunk_tried(fns, variants, work):
                      witness_ok=reached["pushes"] > 0 and reached["tries"] > 0, witness_note="%r" % reached)
 
 
+def vc_context_counts_reset(fns, variants, work):
+    """parse_hunk, one inductive step of its line loop: whatever the counters are when a line is read, after a CHANGED line (pushed
+    to exactly one side) the trailing-context counter is 0; a context line (pushed to both sides) leaves exactly one of the two
+    counters one higher.  (The fuzz / anchoring rules of C02 read these counters; lemma 1 of C01 asserts them for short hunks.)"""
+    fn = find_fn(fns, r"^parse_hunk$")
+    hunk_local = fn.debug.get("hunk") if hasattr(fn, "debug") else None
+    if not hunk_local:
+        m = re.search(r"debug hunk => (_\d+);", fn.text if hasattr(fn, "text") else "")
+        hunk_local = m.group(1) if m else None
+    if not hunk_local:
+        # the local of type Hunk that is moved into the Ok tuple
+        cands = [k for k, t in fn.types.items() if re.fullmatch(r"_\d+", k) and re.search(r"(^|::)Hunk<", t) and int(k[1:]) > fn.nparams]
+        hunk_local = cands[0] if cands else None
+    if not hunk_local:
+        raise KeyError("parse_hunk: local `hunk`")
+    i_suf = mirvc.struct_field_index("Hunk", "suffix_context")
+    i_pre = mirvc.struct_field_index("Hunk", "prefix_context")
+    found, reached = [], {"changed": 0, "context": 0}
+
+    def end_of_iteration(eng, st, bb, where):
+        n = len([g for g in st.ghost if g.startswith("push:")])
+        if "iter" not in st.ghost or n == 0:
+            return
+        suf = eng.read_path(st, "%s.%d" % (hunk_local, i_suf), "usize")
+        pre = eng.read_path(st, "%s.%d" % (hunk_local, i_pre), "usize")
+        s0, p0 = st.store.get("ghost:suf0"), st.store.get("ghost:pre0")
+        if n == 1:
+            reached["changed"] += 1
+            conds = [("after a changed line ('-' or '+') the trailing-context count is not back to 0", suf != 0)]
+            if p0 is not None:
+                conds.append(("a changed line alters the leading-context count", pre != p0))
+        else:
+            reached["context"] += 1
+            conds = []
+            if s0 is not None and p0 is not None:
+                conds.append(("a context line does not raise exactly one of the two context counts by one",
+                              z3.Not(z3.Or(z3.And(pre == p0 + 1, suf == s0), z3.And(pre == p0, suf == s0 + 1)))))
+        for what, c in conds:
+            ok, model = eng.feasible(st, [c])
+            eng.record_query("%s %s" % (bb, what[:24]), list(st.pc) + [c])
+            if ok:
+                found.append({"bb": bb, "stmt": where, "what": what, "model": model_values(model, ("hv_",)), "trace": list(st.trace[-12:])})
+
+    def on_call(eng, st, bb, site, stmt, dst, callee, args, nxt):
+        c = callee.strip()
+        if re.search(r"(^|::)parse_hunk_line$", c):
+            end_of_iteration(eng, st, bb, "next line")
+            # inductive step: arbitrary counters at the start of the iteration
+            s0 = z3.BitVec("hv_suf_%s_%d" % (site, eng.states), 64)
+            p0 = z3.BitVec("hv_pre_%s_%d" % (site, eng.states), 64)
+            st.pc.append(z3.ULT(s0, 1 << 40)); st.pc.append(z3.ULT(p0, 1 << 40))
+            st.store["%s.%d" % (hunk_local, i_suf)] = s0
+            st.store["%s.%d" % (hunk_local, i_pre)] = p0
+            st.store["ghost:suf0"], st.store["ghost:pre0"] = s0, p0
+            st.ghost = frozenset(g for g in st.ghost if not g.startswith("push:")) | {"iter"}
+        elif re.search(r"Vec::<&\[u8\]>::push$", c):
+            st.ghost = st.ghost | {"push:%s" % site}
+        return None
+
+    def on_stmt(eng, st, bb, s):
+        # the loop is left: the hunk is moved into the result (checked before the move, hooks run ahead of the statement)
+        if re.search(r"= \(.*move %s\)" % hunk_local, s) or re.search(r"= \(.*move %s," % hunk_local, s):
+            end_of_iteration(eng, st, bb, "loop exit")
+            st.ghost = frozenset(g for g in st.ghost if not g.startswith("push:") and g != "iter")
+
+    eng = Engine(fns, fn, variants, hooks={"on_call": on_call, "on_stmt": on_stmt})
+    eng.seeds = {hunk_local}
+    eng.run()
+    return summarize(eng, found, {"changed_line_iterations_checked": reached["changed"], "context_line_iterations_checked": reached["context"]}, work, "c02x",
+                     witness_ok=reached["changed"] > 1 and reached["context"] > 0, witness_note="%r" % reached)
+
+
 def vc_rollback_view_recorded(fns, variants, work):
     """apply_modify in rollback mode: each hunk is undone through the view built with the direction passed in and the fuzz
     level RECORDED for that hunk in the report being rolled back (HunkApplyReport::Applied.fuzz), never the caller's fuzz
